@@ -62,6 +62,11 @@ def patch_variants(pids=None):
             if os.path.exists(pf):
                 for pid in want:
                     out.append(dict(id=f"{pid}-refactor-{name}", pid=pid, patch=pf, file=name, old="", new="", expect="silent", rule=None))
+    for pid in want:  # whole-tree transformations: every local variable (and every nested function) renamed
+        out.append(dict(id=f"{pid}-transform-rename-locals", pid=pid, transform="rename_locals", file="rex/**", old="", new="", expect="silent", rule=None))
+        out.append(dict(id=f"{pid}-transform-rename-locals-and-nested-defs", pid=pid, transform="rename_locals_defs", file="rex/**", old="", new="", expect="silent", rule=None))
+        for tr in ("swap_comparisons", "ifexp_to_if", "de_morgan"):
+            out.append(dict(id=f"{pid}-transform-{tr}", pid=pid, transform=tr, file="rex/**", old="", new="", expect="silent", rule=None))
     d = os.path.join(VERIF, "seeded")
     if os.path.isdir(d):
         for name in sorted(os.listdir(d)):
@@ -83,7 +88,13 @@ def run_variant(v, repo="/repo"):
             p = subprocess.run(["patch", "-p1", "-s", "-f", "-d", tmp, "-i", v["patch"]], capture_output=True, text=True)
             if p.returncode != 0:
                 return dict(v=v["id"], status="stale", detail="patch does not apply to this tree")
-        edits = [] if v.get("patch") else (v.get("edits") or [(v["file"], v["old"], v["new"])])
+        if v.get("transform"):
+            from . import transforms
+            if v["transform"].startswith("rename_locals"):
+                transforms.rename_locals(tmp, defs=v["transform"].endswith("_defs"))
+            else:
+                getattr(transforms, v["transform"])(tmp)
+        edits = [] if (v.get("patch") or v.get("transform")) else (v.get("edits") or [(v["file"], v["old"], v["new"])])
         for file, old, new in edits:
             path = os.path.join(tmp, file)
             src = open(path).read()
